@@ -209,6 +209,8 @@ void backend () {
   int nb;
   int i;
   error_context_t econ;
+  volatile int initial_tick_done = 0;	/* modified between setjmp() and longjmp() */
+  volatile int console_user_done = 0;
 
   opt_info (1, "Entering backend loop.");
 
@@ -253,16 +255,26 @@ void backend () {
     {
       debug_message ("timer not used (timer flags = %d)\n", MAIN_OPTION(timer_flags));
     }
-  /* do initial timer tick (initialize current_time and allow LPC code to access time).
-   * This is always done even if no timer is started, so that current_time is valid.
-   */
-  call_heart_beat ();
-
+  /* arm the recovery point first: everything below may run LPC code, and an
+   * uncaught error longjmp()s to econ.context. */
   if (setjmp (econ.context))
     restore_context (&econ);
 
-  if (MAIN_OPTION(console_mode))
-    init_console_user(0);
+  /* do initial timer tick (initialize current_time and allow LPC code to access time).
+   * This is always done even if no timer is started, so that current_time is valid.
+   * Done once: the code after setjmp() is re-entered after every uncaught error.
+   */
+  if (!initial_tick_done)
+    {
+      initial_tick_done = 1;
+      call_heart_beat ();
+    }
+
+  if (MAIN_OPTION(console_mode) && !console_user_done)
+    {
+      console_user_done = 1;
+      init_console_user(0);
+    }
 
   while (1)
     {
